@@ -98,21 +98,28 @@ def units_cases(seed=0):
     ref = None
     base = make_device("um", 1.0)
     with tempfile.TemporaryDirectory() as td:
-        for ci, (lu, ls, fu, fs_, cu, cs, screening) in enumerate((("um", 1.0, "mT", 1.0, "uA", 1.0, False), ("nm", 1e3, "uT", 1e3, "nA", 1e3, False), ("mm", 1e-3, "T", 1e-3, "mA", 1e-3, False),
-                                                                   ("nm", 1e3, "mT", 1.0, "uA", 1.0, False), ("um", 1.0, "uT", 1e3, "mA", 1e-3, False),
-                                                                   ("um", 1.0, "mT", 1.0, "uA", 1.0, True), ("nm", 1e3, "uT", 1e3, "mA", 1e-3, True))):
+        from tdgl.sources import ConstantField, LinearRamp
+        cfgs = [("um", 1.0, "mT", 1.0, "uA", 1.0, False, False), ("nm", 1e3, "uT", 1e3, "nA", 1e3, False, False), ("mm", 1e-3, "T", 1e-3, "mA", 1e-3, False, False),
+                ("nm", 1e3, "mT", 1.0, "uA", 1.0, False, False), ("um", 1.0, "uT", 1e3, "mA", 1e-3, False, False),
+                ("um", 1.0, "mT", 1.0, "uA", 1.0, True, False), ("nm", 1e3, "uT", 1e3, "mA", 1e-3, True, False),
+                # time-dependent applied field (re-evaluated at every step)
+                ("um", 1.0, "mT", 1.0, "uA", 1.0, False, True), ("nm", 1e3, "uT", 1e3, "mA", 1e-3, False, True)]
+        for ci, (lu, ls, fu, fs_, cu, cs, screening, ramp) in enumerate(cfgs):
             dev = make_device(lu, ls)
             dev.mesh = base.mesh          # share the dimensionless mesh (Triangle is not unit-covariant bit-wise)
             opts = tdgl.SolverOptions(solve_time=0.5, save_every=1000, include_screening=screening, field_units=fu, current_units=cu,
                                       output_file=os.path.join(td, f"u{ci}.h5"))
-            sol = tdgl.solve(dev, opts, applied_vector_potential=0.3 * fs_, terminal_currents=dict(source=4.0 * cs, drain=-4.0 * cs))
+            field = 0.3 * fs_
+            if ramp:
+                field = LinearRamp(tmin=0.0, tmax=0.4) * ConstantField(0.6 * fs_, field_units=fu, length_units=lu)
+            sol = tdgl.solve(dev, opts, applied_vector_potential=field, terminal_currents=dict(source=4.0 * cs, drain=-4.0 * cs))
             d = sol.tdgl_data
             mu = d.mu - d.mu.mean()
             K = sol.current_density.to("uA/um").magnitude
             Bfield = sol.field_at_position(np.array([[0.5, 0.2], [-1.0, 0.4]]) * ls, zs=1.0 * ls, vector=True, units="mT", with_units=False)
             cur = dict(abs_psi=np.abs(d.psi), js=d.supercurrent, jn=d.normal_current, mu=mu, K=K, A=d.induced_vector_potential, field_above_the_film=np.asarray(Bfield))
             n += 1
-            key = screening
+            key = (screening, ramp)
             if ref is None:
                 ref = {}
             if key not in ref:
@@ -122,7 +129,7 @@ def units_cases(seed=0):
                 r = ref[key][nm]
                 err = np.abs(a - r).max() / (np.abs(r).max() + 1e-30)
                 if err > 1e-6:
-                    bad.append(dict(what=f"{nm} depends on the unit system", units=(lu, fu, cu), screening=screening, relative_difference=float(err)))
+                    bad.append(dict(what=f"{nm} depends on the unit system", units=(lu, fu, cu), screening=screening, time_dependent_field=ramp, relative_difference=float(err)))
     logging.disable(logging.NOTSET)
     return bad, n
 
